@@ -99,11 +99,15 @@ func (k Keeper) CalculateBatchAllocation(ctx context.Context, auction types.Auct
 		// Note that our goal is to find the first true(matched) condition, starting
 		// from the lowest price.
 		i = (len(prices) - 1) - i
-		res, matched := types.Match(prices[i], prices, bidsByPrice, sellingAmt, allowedBidders)
-		if matched { // If we found a valid matching price, store the result
+		// The searched predicate is "the demand at this price fits the supply", which is
+		// monotone in the price. "Something matched" is not: a worth bid can convert to
+		// zero coins at a high price while lower prices still clear.
+		res, _ := types.Match(prices[i], prices, bidsByPrice, sellingAmt, allowedBidders)
+		fits := res != nil
+		if fits { // If we found a valid matching price, store the result
 			matchRes = res
 		}
-		return matched
+		return fits
 	})
 
 	mInfo.MatchedLen = int64(len(matchRes.MatchedBids))
